@@ -294,6 +294,32 @@ def _r5(ctx):
     ctx.floor("R5", "default-mode comparison", len([o for o in ctx.obs if o.rule == "R5"]), 1)
 
 
+def _dataclass_methods(pkg, fl, v):
+    """`Rec(a, b).m()` -- Rec a plain @dataclass of the package (annotated fields in order, no __init__ / __post_init__ / properties
+    of its own named like a field), m a small loop-free method of it -- is the value m returns with self.<field> standing for the
+    constructor argument of that position (valueflow's inliner reads m; the fields are then put in).  Anything else is left."""
+    if not isinstance(v, tuple) or not v:
+        return v
+    v = tuple(_dataclass_methods(pkg, fl, x) if isinstance(x, tuple) else x for x in v)
+    if len(v) == 5 and v[0] == "meth" and isinstance(v[1], tuple) and len(v[1]) == 4 and v[1][0] == "call" and v[1][1][0] == "global" and v[1][1][1] in pkg.classes:
+        ci = pkg.classes[v[1][1][1]]
+        decs = {ast.unparse(d).split("(")[0] for d in ci.node.decorator_list}
+        fields = [st.target.id for st in ci.node.body if isinstance(st, ast.AnnAssign) and isinstance(st.target, ast.Name)]
+        callee = ci.methods.get(v[2])
+        args, kws = v[1][2], dict(v[1][3])
+        if decs & {"dataclass", "dataclasses.dataclass"} and not ci.bases and callee is not None and not callee.decorator_list and not ({"__init__", "__post_init__", "__getattr__", "__getattribute__"} & set(ci.methods)) \
+                and len(args) <= len(fields) and not any(a[0] == "star" for a in args) and all(k in fields[len(args):] for k in kws) and len(args) + len(kws) == len(fields):
+            given = dict(zip(fields, args))
+            given.update(kws)
+            inl = fl._inline(callee, v[3], dict(v[4]))
+            if inl is not None and not any(isinstance(x, tuple) and len(x) == 5 and x[0] == "meth" and x[1] == ("param", "self") for x in walk(inl)):
+                from ..valueflow import subst
+                out = simp(subst(inl, {("attr", ("param", "self"), f_): x for f_, x in given.items()}))
+                if not any(x == ("param", "self") for x in walk(out)):
+                    return out
+    return v
+
+
 def _r1(ctx):
     pkg = package(ctx.tree)
     fn = pkg.method("TemplateLoader", "_assign_rates")
@@ -310,6 +336,15 @@ def _r1(ctx):
     if v[0] == "comp" and len(v[3]) == 1:
         tg, it, ifs = v[3][0]
         elt0 = v[2]
+        # [g(s) for s in [f(x) for x in X]] is [g(f(x)) for x in X]: statements first collected as objects, then turned into text
+        from ..valueflow import subst as _subst
+        for _ in range(3):
+            inner = simp(it)
+            if not (tg is not None and tg[0] == "bv" and inner[0] == "comp" and inner[1] in ("list", "gen") and len(inner[3]) == 1 and not inner[3][0][2] and not ifs):
+                break
+            elt0 = _subst(elt0, {tg: inner[2]})
+            tg, it, ifs = inner[3][0]
+        elt0 = _dataclass_methods(pkg, fl, elt0)
     else:
         # the same list written as `out = []; for ..: <build the statement>; out.append(statement)`
         lb = loop_built_seq(fl, v[1]) if v[0] == "acc" else None
@@ -1596,4 +1631,23 @@ MUTANTS += [
 BENIGN += [
     {"name": "native-writer-bounds-by-str-format", "file": RFILE, "old": 'f"{self.temp_min:9.2f}"', "new": '"{:9.2f}".format(self.temp_min)'},
     {"name": "native-writer-bounds-by-percent-format", "file": RFILE, "old": 'f"{self.temp_max:9.2f}"', "new": '"%9.2f" % self.temp_max'},
+]
+# ---- wave 3: statements collected as small objects first (a dataclass with a method that prints the statement)
+_STMT_CLASS = ('@dataclass\nclass _Assignment:\n    symbol: str\n    index: int\n    window: str\n    expr: str\n\n    def text(self) -> str:\n'
+               '        plain = f"{self.symbol}[{self.index}] = {self.expr};"\n        if not self.window:\n            return plain\n'
+               '        return %s\n\n\nclass TemplateLoader:\n')
+_STMT_OBJECTS = ('        items = [_Assignment(rate_sym, ridx, trange, rateexpr) for ridx, (trange, rateexpr) in enumerate(zip(tranges, rateexprs))]\n'
+                 '        rateassign = [item.text() for item in items]\n')
+MUTANTS += [
+    {"name": "statement-objects-guard-closed-before-assignment", "edits": [
+        {"file": T, "old": "class TemplateLoader:\n", "new": _STMT_CLASS % '"\\n".join([f"if ({self.window}) {{", "}", plain])'},
+        {"file": T, "old": _STMT_COMP, "new": _STMT_OBJECTS}], "rules": ["R1"]},
+    {"name": "statement-objects-index-one-late", "edits": [
+        {"file": T, "old": "class TemplateLoader:\n", "new": _STMT_CLASS % '"\\n".join([f"if ({self.window}) {{", plain, "}"])'},
+        {"file": T, "old": _STMT_COMP, "new": _STMT_OBJECTS.replace("rate_sym, ridx, trange", "rate_sym, ridx + 1, trange")}], "rules": ["R1"]},
+]
+BENIGN += [
+    {"name": "statements-as-dataclass-objects", "edits": [
+        {"file": T, "old": "class TemplateLoader:\n", "new": _STMT_CLASS % '"\\n".join([f"if ({self.window}) {{", plain, "}"])'},
+        {"file": T, "old": _STMT_COMP, "new": _STMT_OBJECTS}]},
 ]
